@@ -133,8 +133,11 @@ def repeat(rng, fs):
 def noise_leaf(rng, kind):
     fs = rng.choice([48828.125, 100000.0, 97656.25])
     if kind == 'blnoise':
-        return {'t': 'blnoise', 'fs': fs, 'seed': rng.randint(0, 20), 'level': 1.0,
-                'fl': rng.choice([1000, 2000]), 'fh': rng.choice([6000, 8000]), 'polarity': rng.choice([1, -1])}
+        n = {'t': 'blnoise', 'fs': fs, 'seed': rng.randint(0, 20), 'level': 1.0,
+             'fl': rng.choice([1000, 2000]), 'fh': rng.choice([6000, 8000]), 'polarity': rng.choice([1, -1])}
+        if rng.random() < 0.3:
+            n.update(eq=True, level=60)         # equalize=True: a second filter state (the calibration's impulse response)
+        return n
     if kind == 'firnoise':
         return {'t': 'firnoise', 'fs': fs, 'seed': rng.randint(0, 20), 'level': 60, 'fl': 2000, 'fh': 8000,
                 'ntaps': rng.choice([101, 401])}
@@ -195,8 +198,11 @@ def vary(rng, tree, transform=True):
                      discard=rng.random() < 0.5)
             if n['rolloff'] == 0.5:
                 n['stop_att'] = 60      # (half an octave and 80 dB: "Unstable filter coefficients", refused)
-            if rng.random() < 0.4:
+            r = rng.random()
+            if r < 0.3:
                 n.update(cal=True, level=60)
+            elif r < 0.65:
+                n.update(eq=True, level=60)     # equalised through the calibration's impulse response (second filter state)
         elif t == 'firnoise':
             n.update(window=rng.choice(['hann', 'hamming']), polarity=rng.choice([1, -1]),
                      equalize=rng.random() < 0.5, max_correction=rng.choice([np.inf, 10]))
@@ -214,6 +220,27 @@ def vary(rng, tree, transform=True):
             n.update(duty=rng.choice([n['duty'], 0.0, 1.0]), depth=rng.choice([n['depth'], 0.0]), cal=rng.random() < 0.3)
         elif t == 'env' and transform and n['window'] != 'cos2factory' and rng.random() < 0.25:
             n['transform'] = rng.choice(sorted(S.TRANSFORMS))
+        # HARDENING item 9: optional arguments left out; in most of these every optional argument of the node is at its
+        # documented default, so that all of them are left out
+        if rng.random() < 0.25:
+            if rng.random() < 0.7 and t not in ('firnoise', 'shaped'):
+                S.to_defaults(n)
+            n['omit'] = True
+        if 'in' not in n:
+            break
+        n = n['in']
+    return tree
+
+
+def defaults_tree(rng, tree):
+    """The same kind of tree, every optional constructor argument at its documented default and left out of the call
+    (by keyword in half of the nodes: then also the non-trailing ones)."""
+    tree = copy.deepcopy(tree)
+    n = tree
+    while True:
+        S.to_defaults(n)
+        if rng.random() < 0.5:
+            n['kw'] = True
         if 'in' not in n:
             break
         n = n['in']
@@ -457,10 +484,7 @@ def pristine_batch(jobs):
             '        out[str(i)] = np.array(type(e).__name__)\n'
             'buf = io.BytesIO(); np.savez(buf, **out); sys.stdout.buffer.write(buf.getvalue())\n')
     env = dict(os.environ, PSI_REPO=C.REPO, PYTHONDONTWRITEBYTECODE='1')
-    r = subprocess.run([sys.executable, '-c', code, C.VERIF], input=json.dumps(jobs).encode(), capture_output=True,
-                       env=env, timeout=90)
-    if r.returncode != 0:
-        raise RuntimeError('reference interpreter failed: ' + r.stderr.decode()[-300:])
+    r = S.run_helper([sys.executable, '-c', code, C.VERIF], input=json.dumps(jobs).encode(), env=env)
     z = np.load(io.BytesIO(r.stdout))
     return [z[str(i)] for i in range(len(jobs))]
 
@@ -478,10 +502,7 @@ def pristine_draw(tree, n):
             'a = np.asarray(S.build_real(json.loads(sys.argv[2])).next(int(sys.argv[3])), dtype=np.float64)\n'
             'sys.stdout.buffer.write(a.tobytes())\n')
     env = dict(os.environ, PSI_REPO=C.REPO, PYTHONDONTWRITEBYTECODE='1')
-    r = subprocess.run([sys.executable, '-c', code, C.VERIF, json.dumps(tree), str(n)], capture_output=True, env=env,
-                       timeout=90)
-    if r.returncode != 0:
-        raise RuntimeError('pristine interpreter failed: ' + r.stderr.decode()[-300:])
+    r = S.run_helper([sys.executable, '-c', code, C.VERIF, json.dumps(tree), str(n)], env=env)
     return np.frombuffer(r.stdout, dtype=np.float64)
 
 
@@ -644,6 +665,14 @@ class C01(Spec):
                 tree = int_tree(rng, cls)
                 n, marks = self.pick_n(rng, tree)
                 yield {'kind': 'factory', 'cls': cls, 'tree': tree, 'chunks': S.boundary_chunks(rng, n, marks), 'tag': 'int'}
+        # item 9: every factory class built with its optional arguments left out (reference: the documented default
+        # spelled out)
+        for cls in CLASSES + extra[:2]:
+            for i in range((2 if quick else 6) if cls in noise else (10 if quick else 50)):
+                tree = defaults_tree(rng, make_tree(rng, cls))
+                n, marks = self.pick_n(rng, tree)
+                chunks = rng.chunks(n, 6) if rng.random() < 0.5 else S.boundary_chunks(rng, n, marks)
+                yield {'kind': 'factory', 'cls': cls, 'tree': tree, 'chunks': chunks, 'tag': 'dflt'}
         # items 5, 6, 7: reset and re-use (after partial draws, after completion, twice in a row, before any draw),
         # get_samples_remaining(), NumPy integer chunk sizes, the caller overwriting what it received, a second
         # object (same arrays / one parameter changed) drawn interleaved, references from a fresh interpreter
@@ -787,6 +816,24 @@ class C01(Spec):
                 c['base'] = off - rng.randint(0, 40)
             yield c
 
+        # item 9: the fragment functions called with their optional arguments left out (start_time, rise_time, offset,
+        # phase, polarity, ... at the documented defaults); reference: the plain call with everything spelled out
+        for i in range(nfn // 2):
+            fs = rng.choice(S.FS_LIST)
+            if i % 2:
+                e = env(rng, fs, None, span=300, window=rng.choice(S.WINDOWS), valid=rng.random() < 0.95)
+                lb, dur, rise = S.env_ints({**e, 'start': 0.0})
+                r = dur // 2 if rise is None else rise
+                off = rng.choice([0, max(0, rng.choice([r, dur - r, dur]) + rng.randint(-2, 2))])
+                yield {'kind': 'envelope_fn', 'window': rng.choice([e['window'], 'cosine-squared']), 'fs': fs, 'dur': e['dur'],
+                       'rise': e['rise'], 'start': rng.choice([0, 0.0]), 'off': off,
+                       'n': rng.choice([1, 2, dur + 3, rng.randint(0, 400)]), 'route': 'short', 'tag': 'dflt'}
+            else:
+                yield {'kind': rng.choice(['tone_fn', 'samtone_fn']), 'fs': fs, 'frequency': rng.uniform(20, fs / 4),
+                       'fc': rng.uniform(100, fs / 4), 'fm': rng.uniform(2, 90), 'level': rng.choice([1.0, 0.37]),
+                       'phase': 0, 'polarity': 1, 'off': rng.choice([0, rng.randint(1, 5000)]), 'n': rng.randint(1, 300),
+                       'route': 'short', 'tag': 'dflt'}
+
     def exhaustive_cases(self):
         fs = 1000.0
         tone = {'t': 'tone', 'fs': fs, 'frequency': 37.0, 'level': 1.0}
@@ -832,7 +879,7 @@ class C01(Spec):
             pass                      # driver unavailable: impl_lines falls back / reports
         tw = [c for c in allc if c['kind'] == 'factory' and c.get('twin') and c['twin']['tree'] != c['tree']]
         try:
-            refs = pristine_batch([(c['twin']['tree'], sum(c['twin']['chunks'])) for c in tw]) if tw else []
+            refs = pristine_batch([(S.explicit(c['twin']['tree']), sum(c['twin']['chunks'])) for c in tw]) if tw else []
             for c, a in zip(tw, refs):
                 self.twin_ref[C.case_hash(c)] = a
         except Exception:
@@ -994,9 +1041,21 @@ class C01(Spec):
         # a caller who wants the fragment from the beginning simply leaves `offset` out: the default must BE 0
         omit = (not ref) and route is None and int(off) == 0 and int(n) % 2 == 0
 
+        # `short`: every optional argument whose value is the documented default is left out of the call
+        short = (not ref) and route == 'short'
+        more = {'samples': n}
+        if int(off) != 0:
+            more['offset'] = off
+
         def once():
             if k == 'envelope_fn':
                 tf = S.TRANSFORMS[c['transform']] if c.get('transform') else None
+                if short and tf is None and c['start'] == 0:
+                    if c['window'] == 'cosine-squared' and c['rise'] is not None and int(n) % 2:
+                        return stim.cos2envelope(fs, c['dur'], c['rise'], **more)
+                    if c['rise'] is None:
+                        return stim.envelope(c['window'], fs, c['dur'], **more)
+                    return stim.envelope(c['window'], fs, c['dur'], c['rise'], **more)
                 if omit and tf is None:
                     if c['window'] == 'cosine-squared' and int(n) % 4 == 0:
                         return stim.cos2envelope(fs, c['dur'], c['rise'], start_time=c['start'], samples=n)
@@ -1036,11 +1095,16 @@ class C01(Spec):
                                      polarity=c['polarity'], calibration=None, samples=n, offset=off)
                 if omit:
                     return stim.tone(fs, c['frequency'], c['level'], c['phase'], c['polarity'], None, n)
+                if short and c['phase'] == 0 and c['polarity'] == 1:
+                    return stim.tone(fs, c['frequency'], c['level'], **more)
                 return stim.tone(fs, c['frequency'], c['level'], c['phase'], c['polarity'], None, n, off)
             if k == 'samtone_fn':
                 if omit:
                     return stim.sam_tone(fs, c['fc'], c['fm'], c['level'], 1, c['phase'], 0, 0, c['polarity'], None, n)
-                return stim.sam_tone(fs, c['fc'], c['fm'], c['level'], 1, c['phase'], 0, 0, c['polarity'], None, n, off)
+                if short and c['phase'] == 0 and c['polarity'] == 1:
+                    return stim.sam_tone(fs, c['fc'], c['fm'], c['level'], **more)
+                return stim.sam_tone(fs, c['fc'], c['fm'], c['level'], 1, c['phase'], 0, 0, c['polarity'], None, n, off,
+                                     None, True, True)
             raise KeyError(k)
 
         try:
@@ -1082,7 +1146,7 @@ class C01(Spec):
             tol = self.tol(c)
             scale = 1.0
             if tol:
-                full = np.asarray(S.build_real(c['tree']).next(max(sum(h) for h in self.histories(c))))
+                full = np.asarray(S.build_real(S.explicit(c['tree'])).next(max(sum(h) for h in self.histories(c))))
                 scale = float(np.max(np.abs(full))) if len(full) else 1.0
             out, j = [], 0
             for h, run in zip(self.histories(c), runs):
@@ -1121,8 +1185,10 @@ class C01(Spec):
             runs = last if last is not None else self.run_factory(c)
             hs = self.histories(c)
             nmax = max(sum(h) for h in hs)
+            # the reference: ONE request to a fresh generator, every optional argument spelled out (HARDENING item 9)
+            rtree = S.explicit(c['tree'])
             try:
-                full = np.array(S.build_real(c['tree']).next(nmax))
+                full = np.array(S.build_real(rtree).next(nmax))
             except (ValueError, ZeroDivisionError) as e:
                 # the single request is refused: every history must be refused too
                 for h, run in zip(hs, runs):
@@ -1133,7 +1199,10 @@ class C01(Spec):
             scale = float(np.max(np.abs(full))) if len(full) else 1.0
             if c.get('pristine') and c['kind'] == 'factory':
                 # the reference of the property, from an interpreter in which nothing else has run
-                ref = pristine_draw(c['tree'], nmax)
+                try:
+                    ref = pristine_draw(rtree, nmax)
+                except S.HelperFailed as e:
+                    return f'a single request for {nmax} samples in a fresh interpreter: {e}'
                 if not S.same(full, ref, tol):
                     return (f'a single request for {nmax} samples differs from the same request in a fresh interpreter '
                             f'at sample {S.first_diff(full, ref)}')
@@ -1144,7 +1213,7 @@ class C01(Spec):
                 if not h:
                     continue            # nothing drawn between two resets
                 got = np.concatenate(run) if run else np.zeros(0)
-                want = full[:sum(h)] if sum(h) == nmax else np.array(S.build_real(c['tree']).next(sum(h)))
+                want = full[:sum(h)] if sum(h) == nmax else np.array(S.build_real(rtree).next(sum(h)))
                 if got.shape != want.shape:
                     return f'chunks {h}: {len(got)} samples delivered, {len(want)} requested'
                 bad = (got != want) if tol == 0.0 else (np.abs(got - want) > tol * scale)
@@ -1179,7 +1248,8 @@ class C01(Spec):
         try:
             want = self.twin_ref.get(C.case_hash(c))
             if want is None:
-                want = pristine_draw(tw['tree'], n) if c.get('pristine') else np.array(S.build_real(tw['tree']).next(n))
+                want = pristine_draw(S.explicit(tw['tree']), n) if c.get('pristine') else \
+                    np.array(S.build_real(S.explicit(tw['tree'])).next(n))
             elif want.ndim == 0:
                 raise ValueError(str(want))
         except self.ERRS as e:
